@@ -1322,6 +1322,16 @@ def _dict_decorators() -> Dict[str, Callable[[_FN], _FN]]:
         _tidy(update)
         return update
 
+    def __ior__(fn):
+        def __ior__(self, other):
+            # dict.__ior__ (PEP 584) bypasses update(); route it through
+            # the instrumented update() so that events fire
+            self.update(other)
+            return self
+
+        _tidy(__ior__)
+        return __ior__
+
     l = locals().copy()
     l.pop("_tidy")
     return l
